@@ -126,7 +126,11 @@ def run(rep: Report) -> None:
                   f"{name} imports {bad}: numeric work outside the engine interface cannot be the same on both engines",
                   key=f"layer|{name}")
     rep.floor("modules outside engines/", nmods, 8)
+    # the compiled function takes its arguments in the order of the network's variables (else the same
+    # inputs do not give the NumPy step's results): long link, clamped initial states
+    from . import c04 as _c04
 
+    _c04.run(rep, only_variant="long")
 
 
 def _step_equal_one(cfg):
